@@ -15,12 +15,16 @@ def one(d):
     m = json.load(open(os.path.join(d, 'meta.json')))
     checks = sorted({k.split(':')[0] for k in m.get('checks', {})}) or [m['breaks_property']]
     mp = os.path.join(d, 'meta.json')
+    backup = open(mp).read()
     m['checks'] = {}
     m['detected_by'] = []
     json.dump(m, open(mp, 'w'), indent=1)
     env = dict(os.environ, VERIF_PROCS='5')
     p = subprocess.run([os.path.join(HERE, 'tools', 'try_seed.py'), m['name'], os.path.join(d, 'patch.diff'), os.path.join(d, 'demo.py'), m['breaks_property'],
                         '--checks', ','.join(checks), '--save'], stdout=subprocess.PIPE, stderr=subprocess.STDOUT, text=True, env=env)
+    if p.returncode != 0 or '"checks"' not in p.stdout:
+        open(mp, 'w').write(backup)     # never lose what was recorded before
+        return m['name'], 'TOOL-ERROR', p.stdout[-200:], {}
     m2 = json.load(open(mp))
     for k in ('note',):
         if k in m and k not in m2:
